@@ -18,6 +18,11 @@
 #include <primesieve/PrimeGenerator.hpp>
 #include <primesieve/Erat.hpp>
 #include <primesieve/primesieve_error.hpp>
+#include <primesieve/ParallelSieve.hpp>
+#include <primesieve/PrimeSieve.hpp>
+#include <algorithm>
+#include <mutex>
+#include <thread>
 #include <primesieve/Vector.hpp>
 
 #include <cerrno>
@@ -50,8 +55,11 @@ struct primesieve_verif_probe
   static uint64_t maxMedium(const primesieve::PrimeGenerator& pg) { return pg.maxEratMedium_; }
   static void setSieveIdxDone(primesieve::PrimeGenerator& pg) { pg.sieveIdx_ = pg.sieve_.size(); }
   static uint64_t l1CacheSize() { return primesieve::Erat::getL1CacheSize(); }
+  static uint64_t threadDistance(const primesieve::ParallelSieve& ps, int threads) { return ps.getThreadDistance(threads); }
 };
 
+extern uint64_t primesieve_verif_min_thread_distance;
+extern void (*primesieve_verif_piece_hook)(uint64_t i, uint64_t start, uint64_t stop);
 bool isPrimeOracle(uint64_t n);
 void oracleRange(uint64_t lo, uint64_t hi, std::vector<char>& out);
 
@@ -291,6 +299,104 @@ int streamSegment(std::istream& in)
   return 0;
 }
 
+// ---------------------------------------------------------------------------
+// stream "count": ParallelSieve::sieve with all six counters
+//   count <start> <stop> <sieveKiB> <threads> <minThreadDistance or 0>
+// ---------------------------------------------------------------------------
+
+std::mutex pieceMutex;
+std::vector<std::pair<uint64_t, std::pair<uint64_t, uint64_t>>> pieceLog;
+void pieceHook(uint64_t i, uint64_t start, uint64_t stop)
+{
+  std::lock_guard<std::mutex> g(pieceMutex);
+  pieceLog.push_back({i, {start, stop}});
+}
+
+const std::vector<std::vector<int>> kPatterns[6] = {
+  {}, {{0, 2}}, {{0, 2, 6}, {0, 4, 6}}, {{0, 2, 6, 8}}, {{0, 2, 6, 8, 12}, {0, 4, 6, 10, 12}}, {{0, 4, 6, 10, 12, 16}}
+};
+
+// independent expectation: counts of primes and of the constellations inside [start, stop]
+bool oracleCounts(uint64_t start, uint64_t stop, uint64_t out[6])
+{
+  for (int i = 0; i < 6; i++) out[i] = 0;
+  if (start > stop) return true;
+  if (stop - start > 120000000ull) return false;
+  std::vector<char> isP;
+  oracleRange(start, stop, isP);
+  for (uint64_t n = start; ; n++)
+  {
+    if (isP[n - start])
+    {
+      out[0]++;
+      for (int k = 1; k < 6; k++)
+        for (auto& pat : kPatterns[k])
+        {
+          bool ok = true;
+          for (int d : pat)
+            if (n + d < n || n + d > stop || !isP[n + d - start]) { ok = false; break; }
+          if (ok) out[k]++;
+        }
+    }
+    if (n == stop) break;
+  }
+  return true;
+}
+
+int streamCount(std::istream& in)
+{
+  std::string line;
+  int cores = std::max(1u, std::thread::hardware_concurrency());
+  while (std::getline(in, line))
+  {
+    auto t = split(line);
+    if (t.empty() || t[0][0] == '#')
+      continue;
+    if (t[0] != "count" || t.size() < 6) { std::cerr << "bad op: " << line << "\n"; return 2; }
+    uint64_t start = u64(t[1]), stop = u64(t[2]);
+    int kib = atoi(t[3].c_str()), threads = atoi(t[4].c_str());
+    uint64_t md = u64(t[5]);
+    std::cout << "count " << start << " " << stop << " " << kib << " " << threads << " " << md << " cores=" << cores << " => ";
+    try
+    {
+      primesieve_verif_min_thread_distance = md;
+      primesieve_verif_piece_hook = pieceHook;
+      pieceLog.clear();
+      primesieve::ParallelSieve ps;
+      ps.setSieveSize(kib);
+      ps.setNumThreads(threads);
+      ps.sieve(start, stop, 63);
+      int ideal = ps.idealNumThreads();
+      uint64_t td = (ideal > 1 && start <= stop) ? primesieve_verif_probe::threadDistance(ps, ideal) : 0;
+      std::sort(pieceLog.begin(), pieceLog.end());
+      std::cout << "c=";
+      for (int i = 0; i < 6; i++) std::cout << (i ? "," : "") << ps.getCount(i);
+      std::cout << " ideal=" << ideal << " td=" << td << " pieces=";
+      for (size_t i = 0; i < pieceLog.size(); i++)
+        std::cout << (i ? ";" : "") << pieceLog[i].second.first << "-" << pieceLog[i].second.second;
+      uint64_t exp[6];
+      if (oracleCounts(start, stop, exp))
+      {
+        bool ok = true;
+        for (int i = 0; i < 6; i++) ok = ok && exp[i] == ps.getCount(i);
+        if (!ok)
+        {
+          std::cout << " ORACLE-MISMATCH exp=";
+          for (int i = 0; i < 6; i++) std::cout << (i ? "," : "") << exp[i];
+        }
+      }
+      std::cout << "\n";
+    }
+    catch (const std::exception& e)
+    {
+      std::cout << "ERR:" << errClass(e) << "\n";
+    }
+    primesieve_verif_min_thread_distance = 0;
+    primesieve_verif_piece_hook = nullptr;
+  }
+  return 0;
+}
+
 } // namespace
 
 int main(int argc, char** argv)
@@ -312,6 +418,8 @@ int main(int argc, char** argv)
     return streamIter(in);
   if (stream == "segment")
     return streamSegment(in);
+  if (stream == "count")
+    return streamCount(in);
   std::cerr << "unknown stream " << stream << "\n";
   return 2;
 }
